@@ -59,6 +59,18 @@ theorem source_key_covers_scan : Gen.C15.keyCoversScan = true := by decide
 theorem source_registers_multiview_first :
     Gen.C15.multiviewFirst = true ∧ Gen.C15.multiViewScannedLast = true := by decide
 
+/-- GENERATED OBLIGATION (probed).  PROTOCOL FACT the whole model rests on: *what a lookup hands to the caller, and what
+the caller's views answer, is a function of (registrations in force, request)* — in the model a view is an opaque
+identity and `scan` reads nothing but `Regs`.  A `MultiView` is such a view with internals (its member lists,
+content negotiation): those are C03's model, not this one.  What C15 needs of them is that they keep no state derived
+from earlier REQUESTS: probed here (the same Accept header string before and after a member is added without accept /
+with accept / replaced with the same phash, GET and POST, against a freshly built application; 20 vs 120 distinct
+unmatched Accept headers leave the multiview's containers unchanged) and checked on the implementation by the harness
+(responses vs a fresh application over multiview histories; a container census of everything reachable from the view
+machinery after 50 vs 300 distinct odd requests must not grow).  Seeded change C15-4 (a per-multiview memo keyed on the
+raw Accept header, not reset on every `add`) falsifies it. -/
+theorem source_multiview_stateless : Gen.C15.multiviewStateless = true := by decide
+
 /-- the adapter mutations of a multiview conversion in the order the translator finds them in the source -/
 def sourceConversionMods (sM sV sS : Slot) (mv : View) : Mods :=
   if Gen.C15.multiviewFirst then conversionMods sM sV sS mv else oldConversionMods sM sV sS mv
